@@ -166,6 +166,29 @@ pub fn decode_bytes(arg: &str, regs: &Regs) -> Result<Vec<u8>, String> {
                 }
                 v[i] = b[0];
             }
+            "rotl" | "rotr" => {
+                let n = num()?;
+                if !v.is_empty() {
+                    let k = n % v.len();
+                    if op == "rotl" {
+                        v.rotate_left(k);
+                    } else {
+                        v.rotate_right(k);
+                    }
+                }
+            }
+            "rev" => v.reverse(),
+            "catreg" | "prereg" => {
+                let name = t.splitn(2, ':').nth(1).ok_or("register operand")?;
+                let other = regs.get(name).cloned().ok_or_else(|| format!("unknown register {}", name))?;
+                if op == "catreg" {
+                    v.extend_from_slice(&other);
+                } else {
+                    let mut n = other;
+                    n.extend_from_slice(&v);
+                    v = n;
+                }
+            }
             _ => return Err(format!("unknown transform {}", op)),
         }
     }
